@@ -678,6 +678,46 @@ _MUTATORS = ("append", "add", "update", "setdefault", "pop", "popitem", "clear",
 _CONTAINERS = ("dict", "list", "set", "defaultdict", "OrderedDict", "deque", "Counter", "WeakValueDictionary", "WeakKeyDictionary", "WeakSet", "ChainMap")
 
 
+# class-level containers that are process-wide registries by design (confirmed by reading), one line of reason each
+_CLASS_REGISTRIES = {
+    ("BaseTaskPool", "_pools"),  # every pool of the process, appended to by the classmethod _add_pool: gives a pool its index for its default name
+}
+
+
+def _class_container(ctx: "Ctx", cls, name: str):
+    """(class, value) when `name` is bound in the body of cls or of a package base class to a freshly built mutable container"""
+    for k in ctx.prog.mro(cls):
+        for st in k.node.body:
+            val = None
+            if isinstance(st, ast.Assign) and any(isinstance(t, ast.Name) and t.id == name for t in st.targets):
+                val = st.value
+            elif isinstance(st, ast.AnnAssign) and isinstance(st.target, ast.Name) and st.target.id == name:
+                val = st.value
+                if val is None:
+                    continue
+            else:
+                continue
+            if isinstance(val, (ast.Dict, ast.List, ast.Set, ast.ListComp, ast.SetComp, ast.DictComp)) or (
+                    isinstance(val, ast.Call) and isinstance(val.func, (ast.Name, ast.Attribute))
+                    and (val.func.id if isinstance(val.func, ast.Name) else val.func.attr) in _CONTAINERS):
+                return k, val
+            return None, None
+    return None, None
+
+
+def _instance_bound(ctx: "Ctx", cls, name: str) -> bool:
+    """is `self.<name>` assigned by a method of the class (or of a package base): the instance then has its own object"""
+    for k in ctx.prog.mro(cls):
+        for m in k.methods.values():
+            ps = m.param_names()
+            if not ps:
+                continue
+            for x in ast.walk(m.node):
+                if isinstance(x, ast.Attribute) and isinstance(x.ctx, ast.Store) and x.attr == name and isinstance(x.value, ast.Name) and x.value.id == ps[0]:
+                    return True
+    return False
+
+
 def r_module_state(ctx: "Ctx", rule: str = "R00.M") -> None:
     """NO-HIDDEN-STATE: the functions this check analysed keep no state in module-level containers or globals.  The rules read a
     function as depending on its arguments and on the instance it belongs to; a module-level cache (say, answers remembered per
@@ -716,6 +756,31 @@ def r_module_state(ctx: "Ctx", rule: str = "R00.M") -> None:
         for node, how in hits:
             rep.ob(rule, "an analysed function keeps no state at module level", False, func=fn, construct=node,
                    detail=f"{how}: shared by every pool / session / call in the process and never tied to the life of the objects it describes")
+        # ... nor in a container created once in a class body: `self.x.add(...)` on `x: set = set()` of the class writes into the one
+        # object every instance of the class (every server, pool, session of the process) shares
+        if fn.cls is not None:
+            first = fn.param_names()[0] if fn.param_names() else None
+            for node in sc2._own_nodes():
+                tgt = None
+                if isinstance(node, ast.Call) and isinstance(node.func, ast.Attribute) and node.func.attr in _MUTATORS:
+                    tgt, how = node.func.value, f"`{node.func.attr}`"
+                elif isinstance(node, ast.Subscript) and isinstance(node.ctx, (ast.Store, ast.Del)):
+                    tgt, how = node.value, "item store"
+                elif isinstance(node, ast.AugAssign) and isinstance(node.target, ast.Attribute):
+                    tgt, how = node.target, "augmented assignment"
+                if not (isinstance(tgt, ast.Attribute) and isinstance(tgt.value, ast.Name)):
+                    continue
+                base = tgt.value.id
+                if base not in (first, "cls", fn.cls.name) and base not in {k.name for k in ctx.prog.mro(fn.cls)}:
+                    continue
+                owner, val = _class_container(ctx, fn.cls, tgt.attr)
+                if owner is None or (owner.name, tgt.attr) in _CLASS_REGISTRIES:
+                    continue
+                if base == first and first != "cls" and _instance_bound(ctx, fn.cls, tgt.attr):
+                    continue
+                rep.ob(rule, "an analysed method keeps no state in a container created in a class body", False, func=fn, construct=node,
+                       detail=f"{how} on `{tgt.attr}`, which is `{ast.unparse(val)[:40]}` evaluated once in the body of class {owner.name}: the one object is shared by "
+                              "every instance of the class in the process")
     rep.ob(rule, "analysed functions scanned for module-level state", True, construct=f"{n} functions")
 
 
